@@ -119,10 +119,16 @@ template <class Writer> class ThreadedBufferedStream : public FakeOStream<Thread
         end_(current_ + BlockQueue::kBlockSize),
         writer_(std::forward<Args>(args)...) {
       thread_ = std::thread([this]() {
+#ifdef PREPROCESS_VERIF
+          if (pv_thread_begin) pv_thread_begin();
+#endif
           for (BlockQueue::Lease lease(queue_.Out()); lease.Size(); lease.SuccessNext()) {
             writer_.write(lease.Base(), lease.Size());
           }
           writer_.flush();
+#ifdef PREPROCESS_VERIF
+          if (pv_thread_end) pv_thread_end();
+#endif
         });
     }
 
@@ -131,6 +137,9 @@ template <class Writer> class ThreadedBufferedStream : public FakeOStream<Thread
       // Poison.
       lease_.Size() = 0;
       lease_.SuccessNext();
+#ifdef PREPROCESS_VERIF
+      if (pv_thread_join) pv_thread_join();
+#endif
       thread_.join();
     }
 
